@@ -51,9 +51,41 @@ void c_arity15(void)
   SMALL(x0); struct OBS15 o; g_tracer_obj_ptr = 0;
   C09_A15(x0, &o);
   __CPROVER_assert(vp_exc == 0 && vp_rep_n == 0 && !vp_terminated, "[C09] POST a call of the arity-15 mock function is accepted silently");
-  for (int i = 0; i < 15; i++) __CPROVER_assert(o.v[i] == x0 + i + 1, "[C09] POST _1.._15 denote the fifteen arguments in positional order, by reference");
-  __CPROVER_assert(o.ret == x0 + 15, "[C09] POST RETURN(_15) is evaluated after the side effect and sees the written argument");
+  for (int i = 0; i < 15; i++) __CPROVER_assert(o.v[i] == x0 + i + 1 + 100, "[C09] POST _1.._15 denote the fifteen arguments in positional order and by reference in WITH (address identity), SIDE_EFFECT (+k) and RETURN (+100)");
+  __CPROVER_assert(o.ret == x0 + 15 + 100, "[C09] POST the RETURN expression is evaluated after the side effect and sees the written argument");
   __CPROVER_assert(0, "REACH! c_arity15");
+}
+void c_arity15_throw(void)
+{
+  SMALL(x0); struct OBS15 o; g_tracer_obj_ptr = 0;
+  C09_A15T(x0, &o);
+  __CPROVER_assert(vp_rep_n == 0 && !vp_terminated && o.ret == 1, "[C09] POST the call ends with the exception of the THROW clause, nothing is reported");
+  for (int i = 0; i < 15; i++) __CPROVER_assert(o.v[i] == x0 + i + 1, "[C09] POST _1.._15 in a THROW clause denote the fifteen arguments in positional order, by reference");
+  __CPROVER_assert(0, "REACH! c_arity15_throw");
+}
+/* rvalue reference parameter on an overloaded, interface-implementing mock function, called through the interface */
+void c_rvalue(void)
+{
+  SMALL(x0); SMALL(k); struct OBS o; g_tracer_obj_ptr = 0;
+  C09_RV(x0, k, &o);
+  __CPROVER_assert(vp_exc == 0 && vp_rep_n == 0 && !vp_terminated, "[C09] POST calls through the interface reach the overload of the mock function chosen by the argument type, nothing is reported");
+  __CPROVER_assert(o.x == 1, "[C09] POST an rvalue argument reaches the clauses without being copied or moved: _1 is the caller's object itself");
+  __CPROVER_assert(o.y == x0 + k, "[C09] POST a write through _1 of an rvalue reference parameter is seen in the caller's object");
+  __CPROVER_assert(o.ret == x0 + k, "[C09] POST RETURN(_1.v) sees the object as the side effects left it");
+  __CPROVER_assert(o.extra == x0 - 1, "[C09] POST the int overload is handled by its own expectation with _1 the int argument");
+  __CPROVER_assert(0, "REACH! c_rvalue");
+}
+/* move-only argument passed by value */
+void c_moveonly(void)
+{
+  SMALL(x0); struct OBS o; g_tracer_obj_ptr = 0;
+  C09_MO(x0, &o);
+  __CPROVER_assert(vp_exc == 0 && vp_rep_n == 0 && !vp_terminated, "[C09] POST a call with a move-only argument is accepted (LR_WITH(_1 != nullptr) sees the pointer that was passed)");
+  __CPROVER_assert(o.x == 1, "[C09] POST a move-only argument reaches the clause as itself: moving from _1 hands over the caller's allocation");
+  __CPROVER_assert(o.y == x0 + 1, "[C09] POST the side effects see it in declaration order: the increment through _1 happened before it was moved from");
+  __CPROVER_assert(o.ret == 1, "[C09] POST RETURN is evaluated after the side effects: _1 is null once it was moved from");
+  __CPROVER_assert(o.extra == 1, "[C09] POST the caller's own pointer was moved into the parameter");
+  __CPROVER_assert(0, "REACH! c_moveonly");
 }
 /* C14: "after a mock object has been moved, its expectations - active and saturated - belong to the new object" */
 void c_move(void)
